@@ -156,6 +156,13 @@ def canonical(ups):
     return [l for u in ups for l in u['lines']]
 
 
+def sanitizer_summary(err):
+    """first line that says what went wrong, then the head of the report"""
+    m = re.search(r'(ERROR: AddressSanitizer[^\n]*|runtime error: [^\n]*|terminate called[^\n]*)', err)
+    head = (m.group(1) + '\n') if m else ''
+    return head + err[:1500]
+
+
 class Runner:
     def __init__(self, impl, model, impl_nohook=None):
         self.impl, self.model, self.impl_nohook = impl, model, impl_nohook
@@ -166,7 +173,7 @@ class Runner:
         rc, out, err = vlib.run2([binary or self.impl, p], timeout=timeout, env=ENV)
         os.remove(p)
         ups, junk = parse_output(out)
-        return {'rc': rc, 'ups': ups, 'junk': junk, 'stderr': err[-1500:]}
+        return {'rc': rc, 'ups': ups, 'junk': junk, 'stderr': sanitizer_summary(err)}
 
     def run_model(self, case, streams, timeout=900):
         p = tmp_path('model')
